@@ -216,7 +216,7 @@ func main() {
 			}
 		}
 		// ClusterInfo level
-		n := c.Budget(260, 6000)
+		n := c.Budget(700, 14000)
 		maxLen := 12
 		for i := 0; i < n && keepGoing(); i++ {
 			raw := i%5 == 4
@@ -241,7 +241,7 @@ func main() {
 			}
 		}
 		// controller level
-		m := c.Budget(120, 2500)
+		m := c.Budget(300, 5000)
 		for i := 0; i < m && keepGoing(); i++ {
 			cs, labels := genCtl(c.Rng, i%5 == 4)
 			c.Case(sig(cs), true, fmt.Sprintf("ctl ops=%02d", len(cs.Ops)/4*4), func() interface{} {
